@@ -579,7 +579,20 @@ static std::string run_dl(const std::string& ops)
                         if (auto d = std::get_if<nitro::dl::dl>(objs[o].get()))
                         {
                             if (t[0] == "load")
+                            {
                                 objs.push_back(std::make_unique<Obj>(d->load<int(int, int)>("nv_add")));
+                                // a symbol that is defined at address null is found like any other (the loader
+                                // reports no error for it): looking it up does not raise
+                                try
+                                {
+                                    auto z = d->load<int(int, int)>("nv_defined_at_null");
+                                    (void)z;
+                                }
+                                catch (std::exception&)
+                                {
+                                    res = "WRONG(a-defined-symbol-at-address-null-reported-missing)";
+                                }
+                            }
                             else
                             {
                                 auto s = d->load<int(int, int)>("nv_no_such_symbol");
